@@ -551,7 +551,7 @@ fn recursion_vs_reconfiguration(tier: &str, out: &mut Out) {
             let h2 = handle.clone();
             let jb = s.spawn("changing", move || {
                 h2.set_new_spec(LogSpecification::debug());
-                std::mem::forget(h2);
+                drop(h2);
             });
             s.join(ja);
             s.join(jb);
